@@ -212,6 +212,9 @@ func (p *Parser) parseWithRecovery(tokens []token.Token) ([]ast.Statement, []err
 			if p.isType(models.TokenTypeSemicolon) {
 				p.advance()
 				openStmt = false
+			} else if p.currentPos > 0 && p.currentPos <= len(tokens) && tokens[p.currentPos-1].Type == models.TokenTypeSemicolon {
+				// the statement's own production consumed its terminator (e.g. SHOW <anything>)
+				openStmt = false
 			}
 		}
 	}
